@@ -412,6 +412,18 @@ def o_C13(cases, rust, lean, V, wd):
     check_encoded(cases, rust, V, wd, layout=False)
     for i, (c, r) in enumerate(zip(cases, rust)):
         t = c.op.split(' ')
+        if c.tag.startswith('interchangeable') and r.startswith('ok '):
+            # names[0] is the first name; the second must reach it through a pointer to its start (offset 12), directly
+            # ('interchangeable') or after its own first label ('-suffix')
+            w = Walker(bytes.fromhex(r[3:]))
+            try: w.msg()
+            except LayoutError: pass
+            if len(w.names) >= 2:
+                start, ctx, ptrs, hops, total = w.names[1]
+                want_ptr_at = start if c.tag == 'interchangeable' else start + 3
+                if not ptrs or ptrs[0] != (want_ptr_at, 12):
+                    V.failing.append((i, 'an equal name (ASCII case variant) written earlier was not used as compression target'))
+            continue
         if t[0].startswith('dec.'):
             pr = name_limit_problem(r)
             if pr: V.failing.append((i, 'wire decoding does not enforce the name limits: ' + pr))
